@@ -154,19 +154,17 @@ def expression(s: Scanner) -> ast.Expression:
 
 
 def expr(s: Scanner) -> ast.expr:
-    ret = and_expr(s)
+    values = [and_expr(s)]
     while s.accept(TokenType.OR):
-        rhs = and_expr(s)
-        ret = ast.BoolOp(ast.Or(), [ret, rhs])
-    return ret
+        values.append(and_expr(s))
+    return values[0] if len(values) == 1 else ast.BoolOp(ast.Or(), values)
 
 
 def and_expr(s: Scanner) -> ast.expr:
-    ret = not_expr(s)
+    values = [not_expr(s)]
     while s.accept(TokenType.AND):
-        rhs = not_expr(s)
-        ret = ast.BoolOp(ast.And(), [ret, rhs])
-    return ret
+        values.append(not_expr(s))
+    return values[0] if len(values) == 1 else ast.BoolOp(ast.And(), values)
 
 
 def not_expr(s: Scanner) -> ast.expr:
